@@ -860,9 +860,9 @@ def in_user_language(shape):
 
 
 # ------------------------------------------------------------------------------------------------ abi phases
-def abi_phases():
-    """Instruction variants by the phase of abi::call (guest import direction) in which they are emitted."""
-    V = [v["name"] for v in mir.load("ws", "wit_bindgen_core", "rlib").adt("abi::Instruction")["variants"]]
+def abi_phases(V):
+    """Instruction variants (V: the heads of FunctionBindgen::emit's match) by the phase of abi::call (guest import
+    direction) in which abi.rs emits them."""
     gen = {f.name: f for f in synq.all_fns(ABI) if f.self_ty == "Generator" and f.body is not None}
 
     def closure(roots):
@@ -1173,7 +1173,11 @@ def unit_streams(em, fn, node=None):
 
 
 def r92(rep, state):
-    ph = abi_phases()
+    emit0 = synq.find_fn(BG, "emit", self_ty="FunctionBindgen")
+    m0 = synq.find_match(emit0.body, "Instruction::", min_arms=20)
+    V = sorted({synq.short(h) for a in synq.arms(m0) for h in a.heads if h != "_"})
+    rep.floor("R9.2", "Instruction variants matched by FunctionBindgen::emit", len(V), 97)
+    ph = abi_phases(V)
     rep.saw(f"{ABI}::Generator::call")
     rep.ob("R9.2", "A1: GetArg is constructed only by Generator::call and Generator::post_return",
            set(ph["getarg_fns"]) <= {"call", "post_return"} and "call" in ph["getarg_fns"], f"{ph['getarg_fns']}", ABI)
